@@ -449,12 +449,17 @@ package util
 // key resolves to a branch. Only the missing-key list of the trie changes.
 //@ func (*MerklePatriciaTrie).getNode returns (n, err)
 //@   trusted
-//@   props C16
-//@   opt bodyfor C16
+//@   props C16 C17
+//@   opt bodyfor C16 C17
 //@   holds mpt.mutex R
 //@   assigns mpt.missingNodeKeys
-//@   ensures err == nil ==> n != nil && Canon(n) && PathsWF(n) && ((n is *FullNode) == KeyIsFull(key)) && len(key) == 32
-//@   ensures err != nil ==> n == nil
+//@   bodyassigns elems(mpt.missingNodeKeys), mapof(mpt.cache.cache), ghost(LruHas), ghost(LruVal), heap(TransactionCache.hits), heap(TransactionCache.miss)
+//@   ensures err == nil ==> n != nil && Canon(n) && PathsWF(n) && ((n is *FullNode) == KeyIsFull(key)) && len(key) == 32          #assumed-store-shape
+//@   ensures err != nil ==> n == nil                                                                                               #assumed-store-nil-on-error
+// C17: a node the store does not have is recorded as missing, and nothing else is.
+//@   ensures err == ErrNodeNotFound ==> len(mpt.missingNodeKeys) == old(len(mpt.missingNodeKeys)) + 1 && mpt.missingNodeKeys[len(mpt.missingNodeKeys) - 1] == key      #absent-node-is-recorded
+//@   ensures err != ErrNodeNotFound ==> len(mpt.missingNodeKeys) == old(len(mpt.missingNodeKeys))                                  #only-absent-nodes-are-recorded
+//@   ensures forall i :: 0 <= i && i < old(len(mpt.missingNodeKeys)) ==> mpt.missingNodeKeys[i] == old(mpt.missingNodeKeys[i])     #earlier-records-kept
 
 // insertNode stamps the origin, stores the node under its hash and records the change. Every node
 // handed to it must be canonical (C02) and carry hex paths. The body is checked for C04 / C14.
